@@ -424,6 +424,18 @@ def c02(rep, tier):
                           'file, the generator\'s current position, or the "-"/-1 placeholder', floor=20)
     ERR_RECS = ('Theo::ParseError', 'Theo::SyntaxError', 'Theo::CodegenResult::Error')
     token_positions_rule(F, M, lib)
+    # the generator reports errors at its current position; before the first visible node it is the initial one
+    genf2 = lib.fn('Theo::gen')
+    for e in walk_all_exprs(genf2['body']):
+        if e.get('k') == 'init' and (e.get('rec') or '').endswith('FileState'):
+            fl = dict(e['fields'])
+            nm = M.strval(genf2, fl.get('name')) if fl.get('name') is not None else None
+            ln = strip_casts(fl.get('line')) if fl.get('line') is not None else None
+            lnv = ln.get('v') if ln is not None and ln.get('k') == 'int' else (-ln['e']['v'] if ln is not None and ln.get('k') == 'un' and ln['op'] == '-' and ln['e'].get('k') == 'int' else None)
+            F.check(nm == '-' and lnv == -1, 'gen: initial position of the generator', 'the "-"/-1 placeholder',
+                    'errors raised before the first visible source line (all nodes so far come from the hidden standard-macro file) are located at "%s":%s, '
+                    'which is neither a supplied file nor the "-"/-1 placeholder' % (nm, lnv), '%s:%d' % (rel(lib, genf2['file']), e['loc'][0]),
+                    witness={'input': 'files {"__standards__": "x0 := RUN f WITH END", "m": ""}, main "m"', 'effect': 'error "unknown name f" located at #root_file_context:0'})
     for f in lib.functions:
         if f['tmpl'] not in ('none', 'inst'):
             continue
